@@ -597,6 +597,20 @@ func checkPermutedAuthorize(c StackCase, rig *stackRig, reg map[string]bool, q R
 		return v
 	}
 	log := &rig.obs.log
+	if err != nil {
+		// a refusal is not turned into an admission by asking again with the request value the caller holds (r6)
+		kept := *log
+		var usr2 interface{}
+		var err2 error
+		if v := kit.Guard("Context.Authorize (asked again after a refusal)", func() { usr2, _, err2 = rig.ctx.Authorize(req, route) }); v != nil {
+			return v
+		}
+		if err2 == nil {
+			return kit.Failf("explicit order %s: ASKED-AGAIN: Context.Authorize refused the request (%s; authorizer saw %v, authenticators called %v); asked again with the same request value it returned principal=%v and no error (authorizer saw %v, authenticators called %v)",
+				describe(c.Alts, orders, nil), errText(err), kept.authz, kept.auth, usr2, log.authz[len(kept.authz):], log.auth[len(kept.auth):])
+		}
+		*log = kept
+	}
 	want := evalOrdered(c.Alts, orders, reg, q.Vec)
 	got := fmt.Sprintf("(principal=%v, request=%v, err=%s), authorizer saw %v, authenticators called %v", usr, rq != nil, errText(err), log.authz, log.auth)
 	var reasons []string
